@@ -129,7 +129,8 @@ def fromHexChars : List Char → Option Bytes
 
 def fromHex (s : String) : Option Bytes := fromHexChars s.toList
 
-def strBytes (s : String) : Bytes := s.toUTF8.toList
+/-- bytes of an ASCII string literal (kernel-reducible, unlike `String.toUTF8`; the model only uses it on ASCII) -/
+def strBytes (s : String) : Bytes := s.toList.map (fun c => UInt8.ofNat c.toNat)
 
 /-- does `p` occur as a prefix of `b` (bytes.HasPrefix) -/
 def hasPrefix (b p : Bytes) : Bool := p.isPrefixOf b
